@@ -484,16 +484,37 @@ def evaluate_signed(case):
         r = None
         raised = type(e).__name__
     served = sorted(md.keys()) if raised is None and r is not False else []
+    # the source object lives on (a caller may ignore load()'s verdict, or load() again later to refresh): what it
+    # holds after a load that did not verify
+    try:
+        left = sorted(md.keys())
+    except Exception:
+        left = []
     # "contributes entities only if that signature verifies": a loader configured with a cert and given a signature
     must_not = cert != 'absent' and state != 'unsigned' and not (state == 'valid' and cert == 'right')
     must = (cert == 'right' and state == 'valid') or cert == 'absent' or state == 'unsigned'
     bad = None
     if must_not and served:
         bad = 'entities-served-although-signature-does-not-verify'
+    elif must_not and left:
+        bad = 'entities-left-in-the-source-although-signature-does-not-verify'
     elif must and cert == 'right' and state == 'valid' and not served:
         bad = 'validly-signed-metadata-not-served:%s' % raised
     elif served and state == 'content-tampered' and cert == 'absent':
         bad = None
+    if not bad and cert == 'right' and state == 'valid' and served:
+        # refresh of the same source object with a document whose signature does not verify and that names one more entity
+        evil = entity_xml(E('spX'), standalone=(shape == 'entity'))
+        if shape != 'entity':
+            y = x.replace('</md:EntitiesDescriptor>', evil + '</md:EntitiesDescriptor>')
+            with open(p, 'w') as f:
+                f.write(y)
+            try:
+                r2 = md.load()
+            except Exception:
+                r2 = None
+            if r2 is not True and 'urn:vp:spX' in sorted(md.keys()):
+                bad = 'refresh-that-does-not-verify-added-entities'
     return case, served, r, raised, bad
 
 
